@@ -5,6 +5,11 @@ import scipy.sparse as sp
 
 from .. import hier
 
+def _nn(v):
+    """NaN counts as 'exceeds every bound' in the oracle comparisons"""
+    return np.inf if np.isnan(v) else v
+
+
 TECHNIQUE = 'Coq/mathcomp proof of the multilevel energy theorem (V/W/F, any depth) + per-hierarchy hypothesis check'
 LEVEL_TEXT = ('Kernel-checked theorems (Props/C02.v, mathcomp, any real field, closed under the global context): for a '
               'hierarchy of any depth whose level matrices are symmetric with nonnegative energy, R = P^T, Galerkin '
@@ -85,9 +90,9 @@ def run(ctx):
                 Ac = hier.dense_of(ml.levels[l + 1].A)
                 if not np.array_equal(R, P.conj().T):
                     ctx.fail('hypothesis/R-not-PH', 'level %d: R != P^H' % l, case)
-                if np.linalg.norm(Ac - R @ Ad @ P) > 1e-10 * (1 + np.linalg.norm(Ac)):
+                if _nn(np.linalg.norm(Ac - R @ Ad @ P)) > 1e-10 * (1 + np.linalg.norm(Ac)):
                     ctx.fail('hypothesis/not-galerkin', 'level %d: |Ac - RAP| = %.3g' % (l, np.linalg.norm(Ac - R @ Ad @ P)), case)
-                if np.linalg.norm(Ad - Ad.conj().T) > 1e-12 * np.linalg.norm(Ad) or np.min(np.linalg.eigvalsh((Ad + Ad.conj().T) / 2)) <= 0:
+                if _nn(np.linalg.norm(Ad - Ad.conj().T)) > 1e-12 * np.linalg.norm(Ad) or np.min(np.linalg.eigvalsh((Ad + Ad.conj().T) / 2)) <= 0:
                     ctx.fail('hypothesis/level-not-HPD', 'level %d' % l, case)
                 n = Ad.shape[0]
                 for nm, sm in (('pre', L.presmoother), ('post', L.postsmoother)):
@@ -105,7 +110,7 @@ def run(ctx):
             Acd = hier.dense_of(ml.levels[-1].A)
             nc = Acd.shape[0]
             X = np.column_stack([ml.coarse_solver(ml.levels[-1].A, np.eye(nc, dtype=Acd.dtype)[:, j]) for j in range(nc)])
-            if np.linalg.norm(Acd @ X - np.eye(nc)) > 1e-8 * np.linalg.cond(Acd):
+            if _nn(np.linalg.norm(Acd @ X - np.eye(nc))) > 1e-8 * np.linalg.cond(Acd):
                 ctx.fail('hypothesis/coarse-solve-inexact', '|A X - I| = %.3g' % np.linalg.norm(Acd @ X - np.eye(nc)), case)
             # ---- end to end: dense error propagation of the implementation
             n0 = A0.shape[0]
